@@ -88,9 +88,9 @@ theorem new_prim (o : TraceOpts) (p : Prim) (nl : Bool) (a : Arr) (h : Spec.wf (
   | f32 => obtain ⟨_, _, rfl⟩ := wf_float32 h; rfl
   | f64 => obtain ⟨_, _, rfl⟩ := wf_float64 h; rfl
   | char => obtain ⟨_, _, _, rfl, _⟩ := wf_int .u32 h; rfl
-  | bytes =>
+  | bytes | bytesRef | bytesSeq =>
     obtain ⟨_, _, _, _, rfl, _, _⟩ := wf_bytes (dt := .largeBinary) (by simp) h; rfl
-  | str =>
+  | str | strRef | cowStr =>
     simp only [primDT] at h
     split at h
     · exact new_dict o nl a h
@@ -252,7 +252,7 @@ theorem utf8Ok_lv : ∀ (t : Ty) (v : Val), Read.utf8Ok (lv t v) = true
     cases t with
     | prim p =>
       cases p with
-      | str => simp only [lv, Read.utf8Ok]; exact Lemmas.C04Utf8.validUtf8_strBytes s
+      | str | strRef | cowStr => simp only [lv, Read.utf8Ok]; exact Lemmas.C04Utf8.validUtf8_strBytes s
       | _ => simp [lv, Read.utf8Ok]
     | _ => simp [lv, Read.utf8Ok]
   | t, .some v => by
